@@ -43,6 +43,20 @@ def javaRound (x : Rat) : Int :=
     else if half < f then x.floor
     else n
 
+/-- `sym_round` ("equivalent to C99 round()": half away from zero), branch for branch; NOT what `util::round` calls —
+it differs from `javaRound` exactly at the negative ties (last branch: `n - 1` instead of `n`) -/
+def symRound (x : Rat) : Int :=
+  let n := modfInt x
+  let f := absQ (x - n)
+  if 0 ≤ x then
+    if f < half then x.floor
+    else if half < f then ceilQ x
+    else n + 1
+  else
+    if f < half then ceilQ x
+    else if half < f then x.floor
+    else n - 1
+
 /-- `makePrecise`, branch `gridSize ≤ 1` (`scale ≠ 0`): `round(val * scale) / scale` -/
 def makePreciseScale (scale x : Rat) : Rat := (javaRound (x * scale) : Rat) / scale
 
@@ -233,6 +247,19 @@ def encode : Val → UInt64
     let s : UInt64 := if neg then 0x8000000000000000 else 0
     if m < pow2 52 then s ||| UInt64.ofNat m
     else s ||| (UInt64.ofNat ((e + 1075).toNat) <<< 52) ||| UInt64.ofNat (m - pow2 52)
+
+/-- `PrecisionModel::Type` (the enumerators FIXED, FLOATING, FLOATING_SINGLE) -/
+inductive ModelType where
+  | fixed | floating | floatingSingle
+deriving DecidableEq, Repr
+
+/-- `PrecisionModel::makePrecise` for every model type: FIXED rounds to the grid, FLOATING is the identity,
+FLOATING_SINGLE converts to `float` and back (`toFloat` = that conversion, not modelled further) -/
+def PM.makePreciseT (toFloat : Val → Val) (t : ModelType) (pm : PM) (v : Val) : Val :=
+  match t with
+  | .fixed => pm.makePrecise v
+  | .floating => v
+  | .floatingSingle => toFloat v
 
 /-- `makePrecise` on bit patterns -/
 def PM.makePreciseBits (pm : PM) (u : UInt64) : UInt64 := encode (pm.makePrecise (F64.decode u))
